@@ -539,8 +539,9 @@ def finalise (o : Obj) : R Value := do
     | .val (iter l) => pure (list l)
     | .val v => pure v
     | .dset l => pure (Value.set l)
-    | .view .values d => pure (list (dictValues d))
-    | .view k d => pure (Value.set (viewElems k d))
+    -- keys() / values() / items(): a list of the keys / values / `[key, value]` pairs in the dictionary's order
+    -- (`convert_output_data` has a branch for `KeysView` / `ItemsView` before its `Set` branch)
+    | .view k d => pure (list (viewElems k d))
     | .mdict d => pure (dict d)
     | .opaque v => pure v
     | o => do let s ← o.it; let xs ← s.toList; pure (list xs)
